@@ -247,6 +247,9 @@ class EnvSuite(Suite):
         vals += ["-n", "-e", "-E", "-n x", "a\\tb", "a\\\\b", "x\\c", "\\0101", "\\101", "tail ", " lead", "  ", "a\nb", "a\n", "\n", "ä€", "$HOME", "`id`", "*", "'", "\"", "a'b\"c", "\\", "!", "~"]
         for _ in range(150 if tier == "quick" else 1500):
             vals.append("".join(rng.choice(ESC_ALPHA + "äb\n") for _ in range(rng.randint(1, 10))))
+        for ash in (False, True):
+            yield {"ash": ash, "accept": [], "calls": [["set", "FOO", "previous value"], ["set", "FOO", ""], ["get", "FOO"]], "seed": 1, "frag": "random"}
+            yield {"ash": ash, "accept": [], "calls": [["set", "A", "x"], ["get", "A"], ["set", "A", ""], ["get", "A"], ["set", "A", "y"], ["get", "A"]], "seed": 2, "frag": "bytes"}
         for i, v in enumerate(vals):
             name = rng.choice(["FOO", "A", "tbot_var1", "_x"])
             calls = [["set", name, v], ["get", name]]
@@ -445,6 +448,21 @@ class SubshellE2E(Suite):
                     out.append(["echo", rng.choice(["x", "a b", "$?"])])
             return out
 
+        # fixed families: a body that changes everything and then raises, at every nesting level
+        check = [["echo", "after"], ["get", "FOO"], ["get", "BAR_1"], ["seen", "FOO"], ["pwd"], ["chkopt"]]
+        change = [["set", "FOO", "inner"], ["set", "BAR_1", "new"], ["cd", "/tmp"], ["opt"]]
+        fixed = [
+            [["set", "FOO", "outer"], ["sub", change + [["boom"]], True]] + check,
+            [["set", "FOO", "outer"], ["sub", change, True]] + check,
+            [["set", "FOO", "outer"], ["sub", [["boom"]] + change, True]] + check,
+            [["set", "FOO", "o"], ["sub", [["set", "FOO", "l1"], ["sub", change + [["boom"]], True]] + check + [["set", "FOO", "l1b"]], True]] + check,
+            [["set", "FOO", "o"], ["sub", [["sub", [["sub", change + [["boom"]], True]] + check, True]] + check, True]] + check,
+            [["sub", change + [["boom"]], False]] + check,
+            [["set", "FOO", "a\\tb"], ["sub", [["set", "FOO", "-n"], ["boom"]], True], ["get", "FOO"], ["seen", "FOO"]],
+        ]
+        for k, prog in enumerate(fixed):
+            for ash in (False, True):
+                yield {"ash": ash, "chunk": 4096 if k % 2 else 1, "prog": prog}
         for i in range(48 if tier == "quick" else 400):
             prog = ops(0) + [["get", n] for n in names] + [["seen", names[0]], ["pwd"], ["chkopt"]]
             yield {"ash": i % 2 == 1, "chunk": rng.choice([1, 4096, 4096]), "prog": prog}
